@@ -225,7 +225,9 @@ def synth_cases(base):
     for i in range(n):
         pass
     d2 = list(base.disks)[-1]
-    for i in range(300):
+    # with a large block size: a run of deleted positions worth more than 4 GiB (32-bit products in the reader)
+    ndel = 300 if c.block_size < 2**20 else (2**32 // c.block_size) + 904
+    for i in range(ndel):
         c.disks[d2].deleted[start + i] = bytes([7]) * hs
     c.info = list(c.info) + [(c.info_oldest - 1600, False, False, False)] * n
     c.info_oldest = min(i[0] for i in c.info if i is not None)
@@ -307,7 +309,8 @@ def run(ctx):
         ctx.nontrivial(("state", i))
     # ---- (b)
     nsyn = 0
-    for cfg in [Config(levels=1, ndisks=2), Config(levels=2, ndisks=2, hashsize=8, splits={0: 2, 1: 2}, parity_limit=8192)]:
+    for cfg in [Config(levels=1, ndisks=2), Config(levels=2, ndisks=2, hashsize=8, splits={0: 2, 1: 2}, parity_limit=8192),
+                Config(levels=1, ndisks=2, blocksize=1024)]:       # 1 MiB blocks: sizes and runs beyond 4 GiB with a few thousand positions
         if ctx.out_of_time():
             ctx.cap("deadline before synthetic " + cfg.short())
             break
